@@ -111,7 +111,7 @@ CHECKS = {
                         stub=STUB_IO + ["explicit system matrix from the ray-tracing matrix without cache and symmetries (reference)"]),
         assumptions=["restart protocol: newest iterate that read_from_file accepts, start at k+1, enforce initial positivity off (the image is "
                      "an iterate), sensitivities recomputed or re-read; with the library defaults agreement is checked to 1e-5 of the maximum",
-                     "process-crash model, no fsync", "no prior / filters in the crash classes; normalisation (bin efficiencies from projection data) on in 40 % of the problems; quadratic or relative-difference prior (with / without kappa image) in the formula class; inter-update filters are not exercised"],
+                     "process-crash model, no fsync", "no prior / filters in the crash classes; normalisation (bin efficiencies from projection data) on in 40 % of the problems; quadratic or relative-difference prior (with / without kappa image) in the formula class; Gaussian inter-iteration / inter-update filter in 30 % of the cases (then positivity and restart only, as the property says)"],
         distinct_by_hash=True,
     ),
     "C08": dict(
